@@ -204,6 +204,28 @@ class Imply(LogicOperator, BooleanLogics.Imply):
     pass
 
 
+def get_atomic_proposition_names(formula):
+    r''' Return the names of the atomic propositions occurring in a formula.
+
+    :param formula: a formula
+    :type formula: Formula
+    :returns: the set of the names of the atomic propositions in the formula
+    :rtype: set
+    '''
+    names = set()
+    stack = [formula]
+    while stack:
+        phi = stack.pop()
+        if isinstance(phi, AtomicProposition):
+            if not isinstance(phi, Bool):
+                names.add(phi.name)
+        else:
+            if isinstance(phi, Formula):
+                stack.extend(phi.subformulas())
+
+    return names
+
+
 def get_symbols(alphabet):
     symbols = list()
 
